@@ -100,6 +100,9 @@ def generate(ctx):
     ncex = len(behs) - nw
     # G1
     core = behaviours_of(ctx.tlc_must("Slash", g_cfg(2, 1, 2, 0, "lists"), name="G1_core", timeout=600))
+    # validator-set changes: a genuine equivocation of each of the seven identities (incl. the new and the removed validators),
+    # every kind, index from the prescribed look-back set and from the other one -- always run in full
+    core += behaviours_of(ctx.tlc_must("Slash", g_cfg(2, 1, 1, 0, "sets"), name="G1_set_changes", timeout=600))
     pairs2 = behaviours_of(ctx.tlc_must("Slash", g_cfg(2, 1, 1, 0, "pairs"), name="G1_pairs_f2", timeout=600))
     pairs50 = behaviours_of(ctx.tlc_must("Slash", g_cfg(50, 1, 1, 0, "pairs"), name="G1_pairs_f50", timeout=600))
     lists50 = behaviours_of(ctx.tlc_must("Slash", g_cfg(50, 2, 2, 1, "lists"), name="G1_lists_f50", timeout=600))
@@ -116,7 +119,7 @@ def generate(ctx):
         behs += core
         for key in sorted(p2):
             behs.append(p2[key] if rnd.random() < 0.5 or key not in p50 else p50[key])
-        behs += lists50 + lists2
+        behs += rnd.sample(lists50, min(len(lists50), 2000)) + rnd.sample(lists2, min(len(lists2), 2000))
         # lists of three evidences in the first block: a seeded sample
         lists3 = behaviours_of(ctx.tlc_must("Slash", g_cfg(2, 2, 3, 1, "lists"), name="G1_lists3_f2", timeout=900))
         behs += rnd.sample(lists3, min(len(lists3), 1200))
@@ -235,7 +238,10 @@ def run(ctx):
                         "penalty amount > 0, i.e. token >= 100/fraction LU (always true with real magnitudes; with a zero penalty the builder "
                         "expels without confirming the evidence)",
                         "scaled protocol-version-5 parameters: stake unit 10 LU, penalty fraction 2 % and 50 %, StakeLookBack 4, "
-                        "MaxEvidenceExpiredIn 3, four genesis validators (set membership constant; indexes differ between look-back heights)",
+                        "MaxEvidenceExpiredIn 3; seven identities: between the certificate look-back block (genesis: ACoCHTFrequency is the "
+                        "constant 32768) and the stake look-back block of the evidence round the stake order changes, a validator is created "
+                        "and one is removed; one more is removed after both look-back blocks; signer indexes come from the look-back set the "
+                        "protocol prescribes for the vote kind, vote-type numbers from consensus/ucon",
                         "the module's evidence intake (event mux subscriber) is replaced by a synchronous append (staking/verif_slash.go)"]
     behs, design_cex = generate(ctx)
     behs = dedup(behs)
